@@ -427,6 +427,32 @@ theorem C04_extend_counterexample_F45 : ¬ C04_extend_Full := by
     (.enum [.int 1, .int 2] ⟨false, .int 1, false⟩) (.int 1) (by rfl)).2
   revert this; decide
 
+/-- F42 through `extend` (replayed on the real code, signature `extend-unsound:dict-field-default-ignored`):
+`Dict([('x', Int(default=1))]).extend(Dict([('x', Int())]))` succeeds and accepts `{}` (the child's field
+default fills the key), the base rejects `{}` — field defaults are not compared by schema extension.
+Any positive extend theorem for Dict children has to exclude differing defaults of shared fields. -/
+theorem C04_extend_counterexample_dict_default : ¬ C04_extend_Full := by
+  intro h
+  have := (h env0
+    (.dict (some [.mk (.const "x") (.int none none ⟨false, .int 1, false⟩)]) ⟨false, .dict [("x", .int 1)], false⟩)
+    (.dict (some [.mk (.const "x") (.int none none F0)]) ⟨false, .dict [("x", .missing)], false⟩)
+    (.dict (some [.mk (.const "x") (.int none none ⟨false, .int 1, false⟩)]) ⟨false, .dict [("x", .int 1)], false⟩)
+    (.dict []) (by rfl)).1 (by rfl)
+  revert this; decide
+
+/-- F125 (replayed on the real code): `Union([Float(), Str()]).extend(Union([Int(min_value=4), Float(), Str()]))`
+succeeds; the extended union accepts the int 1 (converted to 1.0), the base routes 1 to its Int
+candidate and rejects it.  Any positive extend theorem for Union children has to exclude bases with a
+candidate that takes the value's Python type before the matching one (the F43 dispatch defect). -/
+theorem C04_extend_counterexample_F125 : ¬ C04_extend_Full := by
+  intro h
+  have := (h env0
+    (.union [.float none none F0, .str none F0] F0)
+    (.union [.int (some 4) none F0, .float none none F0, .str none F0] F0)
+    (.union [.float none none F0, .str none F0] F0)
+    (.int 1) (by rfl)).1 (by rfl)
+  revert this; decide
+
 /-- F46: `Tuple(Int(), max_size=2).extend(Tuple(Int(), min_size=2))` has `min == max == 2` with one
 element spec and accepts `(1,)`. -/
 theorem C04_extend_counterexample_F46 : ¬ C04_extend_Full := by
